@@ -51,7 +51,9 @@ class QuadratureRule:
             This identifier is used to provide unique names to tables and symbols
             in generated code.
         """
-        return self.hash_obj.hexdigest()[-3:]
+        # Three hex digits collide in practice (triangle, default scheme: degree
+        # 15 and 26), giving two tables of different size the same name
+        return self.hash_obj.hexdigest()[-10:]
 
 
 def create_quadrature_points_and_weights(
